@@ -59,11 +59,13 @@ type Context interface {
 
 type Echo struct{}
 
-func (Echo) GET(string, func(Context) error)    {}
-func (Echo) POST(string, func(Context) error)   {}
-func (Echo) PUT(string, func(Context) error)    {}
-func (Echo) DELETE(string, func(Context) error) {}
-func (Echo) PATCH(string, func(Context) error)  {}
+type Route struct{}
+
+func (Echo) GET(string, func(Context) error) *Route    { return nil }
+func (Echo) POST(string, func(Context) error) *Route   { return nil }
+func (Echo) PUT(string, func(Context) error) *Route    { return nil }
+func (Echo) DELETE(string, func(Context) error) *Route { return nil }
+func (Echo) PATCH(string, func(Context) error) *Route  { return nil }
 `
 
 type payloadTy struct{ src, str string }
@@ -83,7 +85,7 @@ func synthRoutes(r *rng, idx int, withVarForm bool) (*modSpec, []routeIntent) {
 	b.WriteString("type Flag bool\n\ntype Token string\n\nfunc QueryParamBool[T ~bool](echo.Context, string) T { var z T; return z }\nfunc QueryParam[T ~string](echo.Context, string) T { return \"\" }\nfunc QueryParamInt[T ~int64](echo.Context, string) (T, error) { return 0, nil }\nfunc (controller) QueryParamInt64(echo.Context, string) int64 { return 0 }\nfunc (controller) QueryParamBool(echo.Context, string) bool { return false }\nfunc FormValueJSON(echo.Context, string, any) error { return nil }\n\n")
 	var intents []routeIntent
 	var reg strings.Builder
-	reg.WriteString("func routes(e *echo.Echo, ct *controller, cv controller, ext inner.Controller, ad admin) {\n\tconst localRoute = \"local_const\"\n")
+	reg.WriteString("func withGroup(e *echo.Echo, f func(*echo.Echo)) { f(e) }\n\nfunc routes(e *echo.Echo, ct *controller, cv controller, ext inner.Controller, ad admin) {\n\tconst localRoute = \"local_const\"\n\tvar registered []*echo.Route\n\t_ = registered\n")
 	n := 3 + r.intn(8)
 	verbs := []string{"GET", "POST", "PUT", "DELETE"}
 	for i := 0; i < n; i++ {
@@ -158,7 +160,16 @@ func synthRoutes(r *rng, idx int, withVarForm bool) (*modSpec, []routeIntent) {
 				}
 			}
 		}
-		fmt.Fprintf(&reg, "\te.%s(%s, %s)\n", in.Verb, pathExpr, handlerExpr)
+		switch r.intn(6) {
+		case 3: // the registration is an argument of another call
+			fmt.Fprintf(&reg, "\tregistered = append(registered, e.%s(%s, %s))\n", in.Verb, pathExpr, handlerExpr)
+		case 4: // inside a function literal called on the spot
+			fmt.Fprintf(&reg, "\tfunc() {\n\t\te.%s(%s, %s)\n\t}()\n", in.Verb, pathExpr, handlerExpr)
+		case 5: // inside a function literal handed to a helper
+			fmt.Fprintf(&reg, "\twithGroup(e, func(g *echo.Echo) {\n\t\tg.%s(%s, %s)\n\t})\n", in.Verb, pathExpr, handlerExpr)
+		default:
+			fmt.Fprintf(&reg, "\te.%s(%s, %s)\n", in.Verb, pathExpr, handlerExpr)
+		}
 		intents = append(intents, in)
 	}
 	// handlers sharing one name: methods of two receiver types and a function (resolution must go by object, not by name)
